@@ -32,7 +32,9 @@ ALPHABETS = [
     [[0x00], [0x01], [0x7f], [0x80]],              # sign boundary
     [[0x00, 0x00], [0x00, 0xff], [0x61, 0x00], [0xff, 0xff]],   # two-byte codes sharing first bytes
     [[0x7f], [0x80], [0xfe], [0xff]],
+    [[0x00], [0x01], [0x02], [0xff]],              # consecutive codes below 0xff: "\x00\xff" is followed by "\x01" (universe UCarry)
 ]
+CARRY = 4                                          # index of that table
 
 MAX_VIOLATIONS_PER_RUN = 20
 PARALLEL = 6
@@ -43,7 +45,8 @@ class Job:
     """one TLC run (+ replay of what it generated)"""
 
     def __init__(self, struct, module, label, constants, mode, invariants=(), view=None, config=None,
-                 num=0, depth=0, alphabet=0, timeout=1500):
+                 num=0, depth=0, alphabet=0, timeout=1500, extra=""):
+        self.extra = extra
         self.struct, self.module, self.label, self.constants, self.mode = struct, module, label, constants, mode
         self.invariants, self.view, self.config = list(invariants), view, dict(config or {})
         self.num, self.depth, self.alphabet, self.timeout = num, depth, alphabet, timeout
@@ -53,12 +56,12 @@ class Job:
     def run(self, seed, idx):
         name = "%s-%d" % (self.module, idx)      # unique: jobs of one module run concurrently
         if self.mode == "check":        # exhaustive model checking, history hidden by the VIEW
-            self.tlc = vlib.run_tlc(self.module, cfg=dict(constants=self.constants, invariants=self.invariants, view=self.view),
+            self.tlc = vlib.run_tlc(self.module, cfg=dict(constants=self.constants, invariants=self.invariants, view=self.view, extra=self.extra),
                                     timeout=self.timeout, name=name, workers=4, heap="3g")
             self.tlc.out = self.tlc.out[-4000:]
             return self
         if self.mode == "enumerate":    # every history: hist is part of the state, Dump prints each exactly once
-            self.tlc = vlib.run_tlc(self.module, cfg=dict(constants=self.constants, invariants=self.invariants + ["Dump"]),
+            self.tlc = vlib.run_tlc(self.module, cfg=dict(constants=self.constants, invariants=self.invariants + ["Dump"], extra=self.extra),
                                     workers=1, timeout=self.timeout, name=name, heap="3g")
             if not self.tlc.ok:
                 self.tlc.behaviours = []
@@ -66,7 +69,7 @@ class Job:
                 return self
             behs = self.tlc.behaviours
         else:                           # -simulate (as vlib.gen_behaviours, with the unique scratch name)
-            self.tlc = vlib.run_tlc(self.module, cfg=dict(constants=self.constants, invariants=["Dump"]), simulate=self.num,
+            self.tlc = vlib.run_tlc(self.module, cfg=dict(constants=self.constants, invariants=["Dump"], extra=self.extra), simulate=self.num,
                                     depth=self.depth, seed=seed * 1000 + idx, timeout=self.timeout, name=name + "-gen", heap="3g")
             if self.tlc.error or self.tlc.violated:
                 raise vlib.MachineryError("behaviour generation failed for %s: %s %s\n%s" %
@@ -229,6 +232,17 @@ def jobs_zip(q, seed):
                                        (dict(KeyIdx=K9, PrefIdx=K9, NV=2, MaxRank=0, MaxLen=40), False, 150)]):
         out.append(Job("zip", "OrderedZip", "ZipTree simulated histories (%s ranks) %s" % ("TLC-chosen" if ranks else "the code's random", js(c)), c, "simulate",
                        num=n, depth=60, alphabet=seed + 2 + i, config=dict(UseRanks=ranks)))
+    # universe UCarry with the byte table whose codes are consecutive below 0xff: prefixes that end in 0xff, the key that is
+    # the incremented shorter prefix held or not
+    carry = "CONSTANT U <- UCarry"
+    c = dict(KeyIdx={2, 3, 4, 5, 6, 7}, PrefIdx=K9, NV=1, MaxRank=1, MaxLen=1000)
+    out.append(Job("zip", "OrderedZip", "ZipTree Impl => Abs, universe UCarry %s" % js(c), c, "check", invariants=inv, view="view", extra=carry))
+    c = dict(KeyIdx={3, 4, 6, 7}, PrefIdx=K9, NV=1, MaxRank=1, MaxLen=3 if q else 4)
+    out.append(Job("zip", "OrderedZip", "ZipTree every history, universe UCarry, consecutive byte codes below 0xff %s" % js(c), c, "enumerate",
+                   alphabet=CARRY, config=dict(UseRanks=True), extra=carry))
+    c = dict(KeyIdx=K9, PrefIdx=K9, NV=2, MaxRank=2, MaxLen=25)
+    out.append(Job("zip", "OrderedZip", "ZipTree simulated histories, universe UCarry %s" % js(c), c, "simulate", num=20 if q else 100, depth=60,
+                   alphabet=CARRY, config=dict(UseRanks=True), extra=carry))
     return out
 
 
